@@ -218,10 +218,10 @@ Definition hll_new (lgk : N) (ty : tgt) (full : bool) : hllarr :=
 Definition inv0 (v : N) : Z := Z.of_N (2 ^ (31 - v)).        (* 2^-v in units of 2^-31, v < 32 *)
 Definition inv1 (v : N) : Z := Z.of_N (2 ^ (63 - v)).        (* 2^-v in units of 2^-63, 32 <= v < 64 *)
 Definition kxq_upd (h : hllarr) (old new : N) : hllarr :=
-  let k0 := h_kxq0 h in let k1 := h_kxq1 h in
-  let '(k0, k1) := if old <? 32 then ((k0 - inv0 old)%Z, k1) else (k0, (k1 - inv1 old)%Z) in
-  let '(k0, k1) := if new <? 32 then ((k0 + inv0 new)%Z, k1) else (k0, (k1 + inv1 new)%Z) in
-  h_with_data h (h_bytes h) (h_curmin h) (h_numat h) k0 k1 (h_aux h).
+  h_with_data h (h_bytes h) (h_curmin h) (h_numat h)
+    (h_kxq0 h - (if (old <? 32)%N then inv0 old else 0) + (if (new <? 32)%N then inv0 new else 0))%Z
+    (h_kxq1 h - (if (old <? 32)%N then 0 else inv1 old) + (if (new <? 32)%N then 0 else inv1 new))%Z
+    (h_aux h).
 
 (* Hll8Array::internalCouponUpdate *)
 Definition hll8_update (h : hllarr) (c : N) : hllarr :=
@@ -381,7 +381,7 @@ Definition hll_update (h : hllarr) (c : N) : option hllarr :=
   | T4 => hll4_update h c
   end.
 
-(* HllArray::const_iterator::get_value *)
+(* HllArray::const_iterator::get_value (one slot) *)
 Definition hll_get (h : hllarr) (s : N) : option N :=
   match h_ty h with
   | T8 => Some (getN (h_bytes h) s)
@@ -391,7 +391,45 @@ Definition hll_get (h : hllarr) (s : N) : option N :=
           else Some (w8 (r + h_curmin h))
   end.
 
-Definition hll_regs (h : hllarr) : option (list N) := omap (hll_get h) (seqN (2 ^ h_lgk h)).
+(* begin(all = true) .. end(): the values of slots 0 .. k-1. The model decodes the byte array
+   sequentially (linear time); HllProofs.hll_regs_pointwise shows it is [hll_get] slot by slot. *)
+Definition take_pad (k : nat) (l : list N) : list N := firstn k (l ++ repeat 0 k).
+
+Fixpoint nibbles (bytes : list N) : list N :=
+  match bytes with
+  | [] => []
+  | b :: t => N.land b 15 :: N.shiftr b 4 :: nibbles t
+  end.
+
+Fixpoint sixes (bytes : list N) : list N :=
+  match bytes with
+  | b0 :: ((b1 :: b2 :: t) as r) =>
+      N.land b0 63
+      :: N.lor (N.shiftr b0 6) (N.shiftl (N.land b1 15) 2)
+      :: N.lor (N.shiftr b1 4) (N.shiftl (N.land b2 3) 4)
+      :: N.shiftr b2 2 :: sixes t
+  | _ => []
+  end.
+
+Fixpoint regs4_from (cm lgk : N) (ax : option auxmap) (i : N) (nibs : list N) : option (list N) :=
+  match nibs with
+  | [] => Some []
+  | r :: t =>
+      let ov := if r =? 15 then match ax with Some a => aux_must_find a lgk i | None => None end
+                else Some (w8 (r + cm)) in
+      match ov, regs4_from cm lgk ax (i + 1) t with
+      | Some v, Some rest => Some (v :: rest)
+      | _, _ => None
+      end
+  end.
+
+Definition hll_regs (h : hllarr) : option (list N) :=
+  let k := N.to_nat (2 ^ h_lgk h) in
+  match h_ty h with
+  | T8 => Some (take_pad k (h_bytes h))
+  | T6 => Some (take_pad k (sixes (h_bytes h)))
+  | T4 => regs4_from (h_curmin h) (h_lgk h) (h_aux h) 0 (take_pad k (nibbles (h_bytes h)))
+  end.
 
 (* begin(all = false) .. end(): pair(slot, value) of the non-empty slots, in slot order *)
 Fixpoint coupons_from (i : N) (vals : list N) : list N :=
